@@ -26,6 +26,7 @@ ASSUMPTIONS = ["omega range test uses -pi_float <= w <= pi_float (arctan2 may re
 TTH_Q = [0.5, 2, 10, 30, 60, 90, 120, 150]
 TTH_T = TTH_Q + [1, 5, 20, 45, 75, 100, 135, 149.5]
 # the last three values are a "refinement" sequence: tilts 2e-5 .. 4e-5 rad apart, called one after the other
+SMALL_TILTS = [(6e-5, -4e-5), (1e-6, 0.0), (0.0, 1e-7), (-3e-5, 2e-4), (1e-9, 1e-9), (0.0, -6e-4), (2e-3, 0.0), (-8e-6, -8e-6)]
 TILT_Q = [0.0, -0.1, 0.1, -0.5, 0.5, 0.10002, 0.10004]
 TILT_T = [0.0, -0.01, 0.01, -0.1, 0.1, -0.3, 0.3, -0.5, 0.5, 0.10002, 0.10004, 1e-6, -3e-5, 1e-3]
 
@@ -158,12 +159,12 @@ def check_case(case):
                 tk = "%s:chi=%g:wedge=%g" % (base, wx, wy)
                 Rm = Rx(wx) @ Ry(wy)
                 og, eg = mod.find_omega_general(gin, tth, wx, wy)
-                verify("find_omega_general", og, eg, lambda o: mod.form_omega_mat_general(o, wx, wy), tk + ":general")
+                verify("find_omega_general", og, eg, lambda o: Rx(wx) @ Ry(wy) @ Rz(o), tk + ":general")
                 exp = expected_count(Rm[0], g, st)
                 count("find_omega_general", len(og), exp, tk + ":general", og)
                 r.require(len(og) == len(eg), tk + ":general:len", "one eta per omega")
                 oq, eq = mod.find_omega_quart(gin, tth, wx, wy)
-                verify("find_omega_quart", oq, eq, lambda o: mod.quart_to_omega(math.degrees(o), wx, wy), tk + ":quart")
+                verify("find_omega_quart", oq, eq, lambda o: (Rx(wx) @ Ry(wy)) @ Rz(o) @ (Rx(wx) @ Ry(wy)).T, tk + ":quart")
                 gp = Rm.T @ g
                 expq = expected_count(Rm[0], gp, st)
                 # (P Rz P' g)_x = p0 . Rz (P' g): same equation with g' = P' g
@@ -178,6 +179,21 @@ def check_case(case):
                         r.require(same_set(om0, og, 1e-7) and same_set(om0, oq, 1e-7), tk + ":agree0", "solvers agree at zero tilt",
                                   list(map(float, om0)), [list(map(float, og)), list(map(float, oq))])
                         r.require(same_set(eg, eq, 1e-7), tk + ":agree0:eta", "eta agrees at zero tilt", list(map(float, eg)), list(map(float, eq)))
+        # a logarithmic ladder of small tilts (a shortcut "tilt below resolution" would sit between 0 and 1e-3)
+        if dirs.index(d) % 4 == 0:
+            for wx, wy in SMALL_TILTS:
+                tk = "%s:chi=%g:wedge=%g" % (base, wx, wy)
+                Rm = Rx(wx) @ Ry(wy)
+                og, eg = mod.find_omega_general(gin, tth, wx, wy)
+                verify("find_omega_general", og, eg, lambda o: Rx(wx) @ Ry(wy) @ Rz(o), tk + ":general")
+                count("find_omega_general", len(og), expected_count(Rm[0], g, st), tk + ":general", og)
+                oq, eq = mod.find_omega_quart(gin, tth, wx, wy)
+                verify("find_omega_quart", oq, eq, lambda o: Rm @ Rz(o) @ Rm.T, tk + ":quart")
+                count("find_omega_quart", len(oq), expected_count(Rm[0], Rm.T @ g, st), tk + ":quart", oq)
+                ow, ew = mod.find_omega_wedge(gin, tth, wy)
+                verify("find_omega_wedge", list(ow), list(ew), lambda o: Ry(-wy) @ Rz(o), tk + ":wedge")
+                count("find_omega_wedge", len(ow), expected_count(Ry(-wy)[0], g, st), tk + ":wedge", list(ow))
+                r.nontrivial.add("small:%g:%g:%g" % (tthd, wx, wy))
         for w in tilts:
             tk = "%s:wedge=%g" % (base, w)
             ow, ew = mod.find_omega_wedge(gin, tth, w)
@@ -223,14 +239,14 @@ def check_case(case):
                     if eg_ is not None:
                         r.require(len(og) == eg_, tk + ":general:count", "number of solutions near tangency", eg_, len(og))
                     for o, e in zip(og, eg):
-                        gt = mod.form_omega_mat_general(float(o), wx, wy) @ g
+                        gt = Rx(wx) @ Ry(wy) @ Rz(float(o)) @ g
                         r.check("find_omega_general", float(np.max(np.abs(gt - target(tth, float(e))))) / st, 1e-9, tk + ":general:cond", "diffraction condition (near tangency)")
                     oq, eq = mod.find_omega_quart(gin, tth, wx, wy)
                     eq_ = expected_count(Rm[0], Rm.T @ g, st)
                     if eq_ is not None:
                         r.require(len(oq) == eq_, tk + ":quart:count", "number of solutions near tangency", eq_, len(oq))
                     for o, e in zip(oq, eq):
-                        gt = mod.quart_to_omega(math.degrees(float(o)), wx, wy) @ g
+                        gt = (Rx(wx) @ Ry(wy)) @ Rz(float(o)) @ (Rx(wx) @ Ry(wy)).T @ g
                         r.check("find_omega_quart", float(np.max(np.abs(gt - target(tth, float(e))))) / st, 1e-9, tk + ":quart:cond", "diffraction condition (near tangency)")
                     if wx == 0:
                         ow, ew = mod.find_omega_wedge(gin, tth, -wy)
@@ -250,8 +266,8 @@ def check_case(case):
             for wx, wy in ((0.0, 0.0), (0.1, -0.1)):
                 Rm = Rx(wx) @ Ry(wy)
                 for sname, call, Mfun, row, gg in (
-                    ("general", lambda: mod.find_omega_general(g * fac, tth, wx, wy), lambda o: mod.form_omega_mat_general(o, wx, wy), Rm[0], g),
-                    ("quart", lambda: mod.find_omega_quart(g * fac, tth, wx, wy), lambda o: mod.quart_to_omega(math.degrees(o), wx, wy), Rm[0], Rm.T @ g),
+                    ("general", lambda: mod.find_omega_general(g * fac, tth, wx, wy), lambda o: Rx(wx) @ Ry(wy) @ Rz(o), Rm[0], g),
+                    ("quart", lambda: mod.find_omega_quart(g * fac, tth, wx, wy), lambda o: (Rx(wx) @ Ry(wy)) @ Rz(o) @ (Rx(wx) @ Ry(wy)).T, Rm[0], Rm.T @ g),
                 ):
                     key = "%s:tth=%g:g=%s*%.3g:chi=%g:wedge=%g:%s" % (mname, tthd, d, fac, wx, wy, sname)
                     try:
@@ -279,11 +295,11 @@ def check_case(case):
                         if tagw == "general":
                             om, eta = mod.find_omega_general(g * scale, tth_w, wx, wy)
                             exp = expected_count(Rm[0], g, st_w)
-                            Mf = lambda o: mod.form_omega_mat_general(o, wx, wy)
+                            Mf = lambda o: Rx(wx) @ Ry(wy) @ Rz(o)
                         else:
                             om, eta = mod.find_omega_quart(g * scale, tth_w, wx, wy)
                             exp = expected_count(Rm[0], Rm.T @ g, st_w)
-                            Mf = lambda o: mod.quart_to_omega(math.degrees(o), wx, wy)
+                            Mf = lambda o: (Rx(wx) @ Ry(wy)) @ Rz(o) @ (Rx(wx) @ Ry(wy)).T
                         if exp is not None:
                             r.require(len(om) == exp, key + ":" + tagw + ":count", "number of solutions for g almost along the rotation axis", exp, len(om))
                         for o, e in zip(om, eta):
